@@ -104,6 +104,7 @@ structure Ctx where
   sched : Nat → Nat
   index : List (Bytes × Idx)
   seqs : List Bytes     -- sequence of every record, from the FASTA parser model
+  truncated : Bool      -- this run reads a proper prefix of the file
 
 /-- decide one operation; returns (reason it is rejected | none, drift?, new fetch state (model), tags) -/
 def decideOp (c : Ctx) (st : Option Fetched) (everFetched : Bool) (op : Op) (obs : String) :
@@ -160,8 +161,9 @@ def decideOp (c : Ctx) (st : Option Fetched) (everFetched : Bool) (op : Op) (obs
         | .err cls pre, m =>
           if cls = "endless" then some "iterator-does-not-end" else
           if inside then
-            -- a partly consumed iterator may also stop early with an error only if the file is truncated
-            some "error-on-valid-request"
+            -- "a file shorter than the index promises yields an error": on a truncated file an error is acceptable
+            -- even when the requested span itself is still present (weakest reading); on the intact file it is not
+            if c.truncated then none else some "error-on-valid-request"
           else
             match pre, m with
             | _, .r => none
@@ -220,7 +222,7 @@ def verdict (toks : List String) (out : String) : String :=
                 ++ String.join (tags.reverse.map (" " ++ ·))
             | n :: ns, r :: rs =>
               if n > file.length then "bad-op cut-beyond-file" else
-              let c : Ctx := { file := file.take n, sched := schedF, index := index, seqs := seqs }
+              let c : Ctx := ⟨file.take n, schedF, index, seqs, decide (n < file.length)⟩
               let obs := r.splitOn ";"
               if obs.length ≠ ops.length then "reject run" ++ toString i ++ "-observation-count" else
               match runOps c ops obs with
